@@ -30,6 +30,21 @@ CHECKS = {
  "C15": ("exhaustive enumeration of all set/remove histories up to length 4 (quick) / 5 (thorough) over a 3-name universe with full-universe probes after every step; proptest-generated longer API histories and script-level histories; model-based oracle (name table + alias table)",
          "Exhaustive within the bound, random beyond; after every step return value, get/exists/get_for_use over the universe, get_all_command_names and the no-dangling-alias invariant are compared with the model; script-level alias/unalias/remove_command/is_command_defined/fn/invocation sequences compared with the same model seeded from the live registry. Exploration level with exhaustive sub-bound.",
          "Trusts the 40-line registry model; unalias modelled from its help text.", "DESIGN.md section 3 C15"),
+ "C10": ("proptest tape-driven generation of structured programs with planted failing commands (trigger_error, library errors, exit_on_error toggles), text/file/included-file modes; model-based oracle (reference interpreter with error protocol) + differential reference for library messages",
+         "Model-based generated search: after every failing line the last-error message/line/source reads and the 'false' output are compared through an emit; fatal mode compares Err(message, line, source). Exploration level.",
+         "Library error messages are taken from a direct call of the same command; failing commands never sit in condition position.", "DESIGN.md section 3 C10"),
+ "C11": ("proptest tape-driven generation of operation histories over variable and scope-stack commands, one run_instruction per step on a persistent context; model-based oracle HashMap + Vec<HashMap>, compared after every step",
+         "Model-based stateful generated search (histories as vec(op) + interpreter): command result and the whole variable map compared after each step. Exploration level.",
+         "Values free of $ % and backslash; unconstrained corner (undefined name in pop --copy) synchronised from the implementation.", "DESIGN.md section 3 C11"),
+ "C12": ("proptest tape-driven generation of collection-command histories over mixed live/released/unknown/wrong-kind handles; model-based oracle Vec/BTreeMap/BTreeSet per live handle with full re-read audits",
+         "Model-based stateful generated search: per-step outputs, 'error or false and nothing changes' for rejected operations, full audit of every live collection through the public commands, recursive release modelled, handle distinctness. Exploration level.",
+         "array_join separators from a pool outside the C09 known classes; rejected operations only need to be error/false.", "DESIGN.md section 3 C12"),
+ "C16": ("exhaustive substring index grid over multi-byte strings plus proptest-generated texts, numbers, calc expression trees and ranges; reference-implementation oracles (byte-level naive search/split/replace/trim, exact decimal comparison, exact expression evaluation) and unit-consistency relations",
+         "Exhaustive within the substring grid, random elsewhere; outputs compared with independent naive references and metamorphic relations (prefix relation, slice length, split/join). Exploration level.",
+         "End index == length left unconstrained; uppercase/lowercase compared with Rust's Unicode mappings.", "DESIGN.md section 3 C16"),
+ "C17": ("proptest tape-driven generation of texts, integers, JSON documents (grammar) and maps; round-trip oracles plus independent base64/hex reference encoders and a JSON normaliser",
+         "Round-trip generated search: bytes/base64/hex/JSON-collections/properties; handle table size restored after release. One known dependency defect (control characters in properties) is excluded by predicate and re-met every run. Exploration level.",
+         "JSON numbers in serde_json canonical spelling; root-level null and handle-like strings not generated.", "DESIGN.md section 3 C17"),
  "C01": ("proptest tape-driven generation of instructions + documented-syntax renderer; round-trip oracle render->parse_text",
          "Generated-input search: random instructions over hazard-biased arbitrary Unicode are rendered with random documented-syntax choices and must parse back to exactly the generated instruction (and n lines to n instructions with line numbers). Failures shrink to a minimal tape and replay file. Right level because the property is a round trip over an unbounded input space; absence is not proved.",
          "Trusts the 80-line renderer as a faithful reading of the README syntax; names restricted as listed in DESIGN.md C01.", "DESIGN.md section 3 C01"),
